@@ -20,3 +20,4 @@ pub mod sync;
 pub use crate::endpoint::verif_misc as misc;
 pub mod recv;
 pub mod common;
+pub use crate::space::verif_session as session;
